@@ -437,6 +437,10 @@ func c01Guards(w *World, r *Report, tn string, mf *ssa.Function) {
 			}
 		}
 		cn := w.condNF(c, true)
+		if strings.Contains(cn, "?") {
+			r.Undecided("R9", fmt.Sprintf("%s.MarshalXML#guard:%s", tn, cn), w.ipos(iff), "a branch condition the engine cannot normalise: cannot tell whether it depends on a field")
+			continue
+		}
 		if !strings.Contains(cn, "field:") {
 			continue
 		}
